@@ -183,7 +183,7 @@ CLAIMED = {
     text="Coq theorems over an executable state machine of gw_backend.c's host pool (host choice for least-connection / round-robin / hash as in "
          "gw_host_get, paired load increments/decrements, disabling on connect failure for disable-time, re-enabling by the trigger, retry bound): for "
          "every interleaving of arrivals, connect failures, completions/aborts and ticks each host's load figure equals the number of requests in flight "
-         "on it (never negative, zero when idle), a request is dispatched or retried only to a host available at that moment, a disabled host sits out "
+         "on it (never negative, zero when idle), a request is dispatched or retried only to a host available at that moment and is never refused while some host is available (round-robin: the next available host after the one used last, wrapping around to it), a disabled host sits out "
          "its disable-time and returns afterwards; tied by differential correspondence against the real lighttpd (mod_proxy over three backends switched "
          "between serving, refusing and hanging; load figures read from mod_status; re-enabling from the error log) in real time",
     note="PARTIAL: local spawned backends with several procs, adaptive spawning, connect/read/write timeouts, sticky mode, descriptor accounting are "
